@@ -267,25 +267,91 @@ def prop_flags(line):
     return fl
 
 
+def _common_ops(a, b):
+    n = 0
+    for x, y in zip(a.split(" ; "), b.split(" ; ")):
+        if x != y:
+            break
+        n += 1
+    return n
+
+
+_CLOSEST_CALLS = [0]
+
+
+def _score(impl, line):
+    n = 0
+    while n < min(len(impl), len(line)) and impl[n] == line[n]:
+        n += 1
+    return (_common_ops(impl, line), n)
+
+
+def closest_variant(case, impl, model):
+    """The model variant whose answer agrees with the implementation on the longest prefix (operations, then
+    characters).  On a tree that still has recorded defects a new fault shows up as a deviation from one of the
+    defective variants; describing the mismatch relative to that variant keeps the recorded defects out of the
+    description and out of shrinking.  Bounded number of driver invocations per run."""
+    import os
+    import subprocess
+    import tempfile
+    best = ("repaired", model)
+    _CLOSEST_CALLS[0] += 1
+    if _CLOSEST_CALLS[0] > 1500:
+        return best
+    try:
+        exe = os.path.join(os.path.dirname(os.path.dirname(os.path.abspath(__file__))), "build", "bin", "C15_run")
+        with tempfile.TemporaryDirectory() as d:
+            open(os.path.join(d, "c"), "w").write(case + "\n")
+            open(os.path.join(d, "i"), "w").write(impl + "\n")
+            out = subprocess.run([exe, os.path.join(d, "c"), os.path.join(d, "i"), "all"], stdout=subprocess.PIPE,
+                                 text=True, timeout=20).stdout.rstrip("\n")
+        lines = out.split(" ### ")
+        if len(lines) == len(VARIANTS):
+            score = _score(impl, model)
+            for v, l in zip(VARIANTS, lines):
+                s = _score(impl, l)
+                if s > score:
+                    best, score = (v, l), s
+    except Exception:
+        pass
+    return best
+
+
 def classify(case, impl, model):
+    v, ref = closest_variant(case, impl, model)
+    tag = "" if v == "repaired" else " [compared with model variant %s, i.e. besides the recorded defect(s) %s]" % (
+        v, "+".join(DEFECT_NAMES[c] for c in ("RAD" if v == "defective" else v[4:])))
+    k, txt = classify1(case, impl, ref)
+    return k, txt + tag
+
+
+def classify1(case, impl, model):
     if "INADMISSIBLE" in model:
         i = [j for j, o in enumerate(model.split(" ; ")) if o.startswith("INADMISSIBLE")][0]
         return "P", "op #%d (%s): the implementation handed out %s, which is not a free aligned in-range block on an " \
                     "admissible address" % (i, split_ops(case)[1][i], model.split(" ; ")[i][13:])
-    extra = prop_flags(impl) - prop_flags(model)
-    if extra:
-        return "P", "property monitor on the implementation's own mappings: %s" % ",".join(sorted(extra))
     io, mo = impl.split(" ; "), model.split(" ; ")
     ops = split_ops(case)[1]
     for j, (a, b) in enumerate(zip(io, mo)):
         if a != b:
             opn = ops[j] if j < len(ops) else "?"
+            extra = prop_flags(a) - prop_flags(b)
+            if extra:
+                return "P", "op #%d %s: property monitor on the implementation's own mappings: %s; impl=%s model=%s" % (
+                    j, opn, ",".join(sorted(extra)), a[:300], b[:300])
             if a.startswith("sw ") or b.startswith("sw "):
                 return "P", "op #%d %s: reverse lookup differs from the owner: impl=%s model=%s" % (j, opn, a[:200], b[:200])
+            if opn[:1] in ("R", "I") and {a, b} == {"ok", "err"}:
+                return "P", "op #%d %s: restore answered %s, the model %s (acceptance of a restored block differs)" % (j, opn, a, b)
             if a.startswith("err") and (b.startswith("ok") or b.startswith("dp")):
                 return "P", "op #%d %s: allocation refused (%s) although an admissible free block exists" % (j, opn, a)
             if (a.startswith("ok") or a.startswith("dp")) and (b.startswith("err") or b == "nodp"):
                 return "P", "op #%d %s: allocation granted (%s) where the limit/pairing/exhaustion rules refuse it (%s)" % (j, opn, a, b)
+            if a.startswith("subs=") and b.startswith("subs="):
+                fa, fb = a.split(" "), b.split(" ")
+                diff = [x.split("=")[0] for x, y in zip(fa, fb) if x != y]
+                kind = "P" if ("subs" in diff or "bits" in diff or "stats" in diff) else "G"
+                return kind, "op #%d %s: pool state differs in %s: impl=%s model=%s" % (j, opn, ",".join(diff), a[:300], b[:300])
             return "G", "op #%d %s: impl=%s model=%s" % (j, opn, a[:300], b[:300])
     return "G", "output length differs: impl=%d ops model=%d ops; impl tail=%s" % (len(io), len(mo), io[-1][:200])
 
